@@ -12,10 +12,11 @@
               instr := 1 a rexpr | 2 a | 3 a 0 | 3 a 1 rexpr | 4 a | 5 a | 6 rexpr | 7 k rexpr
                      | 8 h rexpr | 9 tgt | 10 h tgt | 11 h tgt | 12 tgt | 13 h tgt
               rexpr := 1 a | 2 k | 3 c n rexpr*n
-   answer: [decoded; blocks equal; header indices of for-loops consistent and fuel sufficient] *)
+   answer: [decoded; blocks equal; header indices of for-loops consistent;
+            1 when the program lies in the fragment of the theorem front_end_correct_e (good_stmts)] *)
 From Coq Require Import List ZArith Bool.
 Import ListNotations.
-From V Require Import Valid.Hier Model.SrcE.
+From V Require Import Valid.Hier Model.SrcE Model.SrcEProof.
 Local Open Scope Z_scope.
 
 Fixpoint parse_expr (fuel : nat) (l : list Z) : option (expr * list Z) :=
@@ -204,6 +205,6 @@ Definition b2z (b : bool) : Z := if b then 1 else 0.
 
 Definition run_srce (rows : list (list Z)) : list Z :=
   match program_of rows with
-  | None => [0; 0; 0]
-  | Some p => [1; b2z (blocks_same (build p) (rows_of rows 172)); b2z (build_ok p)]
+  | None => [0; 0; 0; 0]
+  | Some p => [1; b2z (blocks_same (build p) (rows_of rows 172)); b2z (build_ok p); b2z (good_stmts p)]
   end.
